@@ -1,1 +1,641 @@
+// Package c24: merging databases follows the documented per-day plan.
+//
+// Source and destination databases are generated as ground truth (Side), materialised by the production
+// DBWriter, merged by the real goDB.MergeDatabases (directly or through the real `gpdb merge` command
+// line), and the destination is then observed in two independent ways: through the real query engine
+// (flow rows per interface / block timestamp) and through the day metadata (block timestamps, per-block
+// flow/drop counters, day totals). Both are compared with the oracle's merge plan, which is computed on
+// the ground truth only. Source tree, dry-run destination tree and the second (identical) merge are
+// compared by content hashes / logical content.
 package c24
+
+import (
+	"bytes"
+	"context"
+	"crypto/sha256"
+	"encoding/hex"
+	"fmt"
+	"io/fs"
+	"os"
+	"os/exec"
+	"path/filepath"
+	"regexp"
+	"sort"
+	"strconv"
+	"strings"
+
+	"github.com/els0r/goProbe/v4/pkg/goDB"
+	"github.com/els0r/goProbe/v4/pkg/goDB/encoder/encoders"
+	"github.com/els0r/goProbe/v4/pkg/goDB/storage/gpfile"
+	"verifharness/eng"
+	"verifharness/fw"
+	"verifharness/gen"
+	"verifharness/ref"
+)
+
+func init() {
+	fw.Register(&fw.Check{
+		ID:    "C24",
+		Level: "exploration",
+		Rule: "case = one seeded (source, destination, options) triple: 1-3 source interfaces x up to 3 days (incl. a month change), day shapes {288-block, coarse complete grids with holes, " +
+			"first/last block within +-1 s of the completeness boundary, partial head/tail/middle, single block, random off-grid}, destination absent/empty/populated with overlapping " +
+			"block timestamps (different or identical content), interface selections (all, subsets, duplicates, unknown), overwrite, tolerance {default,1s,150s,300s,600s,1h,12h}, optional dry run first, " +
+			"API or real `gpdb merge` command line; every merge is run twice. Oracle = merge plan computed on the generator's ground truth. " +
+			"A (case, source day) is non-trivial iff the destination already holds that day (plan decided by completeness/overwrite); distinct by scenario description.",
+		Assumptions: []string{
+			"block timestamps >= 1000080000 (10-digit day directories)",
+			"a day is complete iff first <= dayStart+tol and last+interval >= dayEnd-tol (interval = distance of the last two blocks, 300 s for one block); tolerance defaults: API 300 s, command line 150 s",
+			"the destination is compared logically (flows per block via the query engine; block timestamps, per-block v4/v6/drop counts and day totals via the day metadata), not byte-wise",
+			"most blocks are tiny; one case in eight carries a 300-600 flow block with random addresses (columns > 4 KiB, incompressible)",
+			"dry-run reports the planned copy/rebuild/skip counts; its conflict counters are not checked",
+		},
+		NumCases: func(tier, variant string) int {
+			if tier == "thorough" {
+				return 2400
+			}
+			return 200
+		},
+		Run: run,
+		Require: []string{"merges", "days_copied", "days_rebuilt", "days_skipped", "days_copy_over_existing", "conflicts_dst_wins", "conflicts_src_wins",
+			"dry_runs", "dry_runs_dst_absent", "second_merges", "cli_merges", "days_boundary_shape", "days_full288", "unknown_iface_cases", "iface_subset_cases", "days_untouched_checked", "rows_compared", "big_blocks"},
+	})
+}
+
+// ---------------------------------------------------------------------------------------------
+// observation of a database on disk
+
+// treeHash hashes names, modes, sizes and contents below root ("absent" if root does not exist).
+func treeHash(root string) (string, error) {
+	if _, err := os.Lstat(root); err != nil {
+		if os.IsNotExist(err) {
+			return "absent", nil
+		}
+		return "", err
+	}
+	h := sha256.New()
+	err := filepath.WalkDir(root, func(path string, d fs.DirEntry, err error) error {
+		if err != nil {
+			return err
+		}
+		rel, _ := filepath.Rel(root, path)
+		info, err := d.Info()
+		if err != nil {
+			return err
+		}
+		fmt.Fprintf(h, "%s|%v|", rel, info.Mode())
+		if info.Mode().IsRegular() {
+			b, err := os.ReadFile(path)
+			if err != nil {
+				return err
+			}
+			s := sha256.Sum256(b)
+			fmt.Fprintf(h, "%d|%x", len(b), s)
+		}
+		h.Write([]byte{'\n'})
+		return nil
+	})
+	if err != nil {
+		return "", err
+	}
+	return hex.EncodeToString(h.Sum(nil)), nil
+}
+
+// listTree lists relative paths (for witnesses).
+func listTree(root string) string {
+	var out []string
+	filepath.WalkDir(root, func(path string, d fs.DirEntry, err error) error {
+		if err != nil {
+			return nil
+		}
+		rel, _ := filepath.Rel(root, path)
+		if d.IsDir() {
+			out = append(out, rel+"/")
+		}
+		return nil
+	})
+	if len(out) > 40 {
+		out = append(out[:40], "…")
+	}
+	return strings.Join(out, " ")
+}
+
+// DayMeta is the metadata of one stored day.
+type DayMeta struct {
+	Dir     string
+	TS      []int64
+	Traffic []gpfile.TrafficMetadata
+	Totals  gpfile.Stats
+}
+
+// readMeta walks <db>/<iface>/<year>/<month>/<day>[_suffix] and reads every day's metadata through
+// goProbe's directory reader. Entries in the DB root or interface directories that do not look like
+// database content are returned as strays.
+func readMeta(db string) (map[string]map[int64]DayMeta, []string, error) {
+	out := map[string]map[int64]DayMeta{}
+	var strays []string
+	ifaces, err := os.ReadDir(db)
+	if err != nil {
+		if os.IsNotExist(err) {
+			return out, nil, nil
+		}
+		return nil, nil, err
+	}
+	num := regexp.MustCompile(`^[0-9]+$`)
+	for _, ie := range ifaces {
+		if !ie.IsDir() || strings.HasPrefix(ie.Name(), ".") {
+			strays = append(strays, ie.Name())
+			continue
+		}
+		ifPath := filepath.Join(db, ie.Name())
+		years, err := os.ReadDir(ifPath)
+		if err != nil {
+			return nil, nil, err
+		}
+		for _, ye := range years {
+			if !ye.IsDir() || !num.MatchString(ye.Name()) {
+				strays = append(strays, filepath.Join(ie.Name(), ye.Name()))
+				continue
+			}
+			months, err := os.ReadDir(filepath.Join(ifPath, ye.Name()))
+			if err != nil {
+				return nil, nil, err
+			}
+			for _, me := range months {
+				if !me.IsDir() || !num.MatchString(me.Name()) {
+					strays = append(strays, filepath.Join(ie.Name(), ye.Name(), me.Name()))
+					continue
+				}
+				days, err := os.ReadDir(filepath.Join(ifPath, ye.Name(), me.Name()))
+				if err != nil {
+					return nil, nil, err
+				}
+				for _, de := range days {
+					rel := filepath.Join(ie.Name(), ye.Name(), me.Name(), de.Name())
+					name, suffix, _ := strings.Cut(de.Name(), "_")
+					dayTS, perr := strconv.ParseInt(name, 10, 64)
+					if !de.IsDir() || perr != nil || strings.Contains(de.Name(), ".gpdb-merge") {
+						strays = append(strays, rel)
+						continue
+					}
+					rd := gpfile.NewDirReader(ifPath, dayTS, suffix)
+					if err := rd.Open(); err != nil {
+						return nil, nil, fmt.Errorf("%s: %w", rel, err)
+					}
+					dm := DayMeta{Dir: rel, Totals: rd.Metadata.Stats}
+					for _, b := range rd.BlockMetadata[0].Blocks() {
+						dm.TS = append(dm.TS, b.Timestamp)
+					}
+					dm.Traffic = append(dm.Traffic, rd.BlockTraffic...)
+					rd.Close()
+					if out[ie.Name()] == nil {
+						out[ie.Name()] = map[int64]DayMeta{}
+					}
+					if prev, dup := out[ie.Name()][dayTS]; dup {
+						strays = append(strays, rel+" (second directory of day "+prev.Dir+")")
+						continue
+					}
+					out[ie.Name()][dayTS] = dm
+				}
+			}
+		}
+	}
+	return out, strays, nil
+}
+
+// wantMeta derives the expected metadata of one day from the ground truth.
+func wantMeta(blocks []gen.Block) DayMeta {
+	var dm DayMeta
+	for _, b := range blocks {
+		tm := gpfile.TrafficMetadata{NumDrops: b.Drops}
+		for _, f := range b.Flows {
+			if f.IsV4() {
+				tm.NumV4Entries++
+			} else {
+				tm.NumV6Entries++
+			}
+			dm.Totals.Counts.BytesRcvd += f.BR
+			dm.Totals.Counts.BytesSent += f.BS
+			dm.Totals.Counts.PacketsRcvd += f.PR
+			dm.Totals.Counts.PacketsSent += f.PS
+		}
+		dm.TS = append(dm.TS, b.TS)
+		dm.Traffic = append(dm.Traffic, tm)
+		dm.Totals.Traffic = dm.Totals.Traffic.Add(tm)
+	}
+	return dm
+}
+
+// ---------------------------------------------------------------------------------------------
+// running the merge
+
+type outcome struct {
+	counts Counts
+	err    error
+	raw    string
+}
+
+func runMerge(c *fw.Case, p *Pair, src, dst string, dry bool) outcome {
+	if !p.ViaCLI {
+		sum, err := goDB.MergeDatabases(context.Background(), goDB.MergeOptions{
+			SourcePath: src, DestinationPath: dst, Interfaces: p.Interfaces,
+			Overwrite: p.Overwrite, DryRun: dry, CompleteTolerance: p.Tolerance,
+		})
+		o := outcome{err: err, raw: fmt.Sprintf("%+v", sum)}
+		o.counts = Counts{sum.InterfacesProcessed, sum.DaysCopied, sum.DaysRebuilt, sum.DaysSkipped, sum.ConflictsResolvedByDestination, sum.ConflictsResolvedBySource}
+		if err == nil && sum.DryRun != dry {
+			o.err = fmt.Errorf("summary.DryRun=%v for a merge with DryRun=%v", sum.DryRun, dry)
+		}
+		return o
+	}
+	self, err := os.Executable()
+	if err != nil {
+		return outcome{err: err}
+	}
+	args := []string{"-role", "gpdb", "merge", src, dst}
+	// interfaces: repeated flags or one comma separated flag
+	if len(p.Interfaces) > 0 {
+		if c.Idx%2 == 0 {
+			for _, n := range p.Interfaces {
+				args = append(args, "--iface", n)
+			}
+		} else {
+			args = append(args, "--iface="+strings.Join(p.Interfaces, ","))
+		}
+	}
+	if p.Overwrite {
+		args = append(args, "--overwrite")
+	}
+	if dry {
+		args = append(args, "--dry-run")
+	}
+	if !p.TolUnset {
+		args = append(args, "--complete-tolerance", p.Tolerance.String())
+	}
+	cmd := exec.Command(self, args...)
+	var stdout, stderr bytes.Buffer
+	cmd.Stdout, cmd.Stderr = &stdout, &stderr
+	rerr := cmd.Run()
+	o := outcome{raw: "gpdb " + strings.Join(args[2:], " ") + "\n" + stdout.String() + stderr.String()}
+	if rerr != nil {
+		o.err = fmt.Errorf("gpdb merge: %v: %s", rerr, strings.TrimSpace(stderr.String()+stdout.String()))
+		return o
+	}
+	get := func(label string) int {
+		m := regexp.MustCompile(`(?m)^` + regexp.QuoteMeta(label) + `: (\d+)$`).FindStringSubmatch(stdout.String())
+		if m == nil {
+			o.err = fmt.Errorf("gpdb merge output lacks %q: %s", label, stdout.String())
+			return -1
+		}
+		v, _ := strconv.Atoi(m[1])
+		return v
+	}
+	o.counts = Counts{get("Interfaces processed"), get("Days copied"), get("Days rebuilt"), get("Days skipped"),
+		get("Conflicts resolved by destination"), get("Conflicts resolved by source")}
+	if !strings.Contains(stdout.String(), fmt.Sprintf("dry-run=%t", dry)) && o.err == nil {
+		o.err = fmt.Errorf("gpdb merge output does not report dry-run=%t: %s", dry, stdout.String())
+	}
+	return o
+}
+
+// ---------------------------------------------------------------------------------------------
+// comparison of the destination with the plan
+
+// dayOf returns the day start of a timestamp.
+func dayOf(ts int64) int64 { return gen.DayStart(ts) }
+
+// checkContent compares the destination at path with the expected side. It returns false if a
+// violation was reported. actions / classes attribute differences to plan decisions.
+func checkContent(c *fw.Case, phase, path string, want Side, pl Plan, witness func() string) bool {
+	ok := true
+	actionOf := func(ifc string, day int64) string {
+		k := key(ifc, day)
+		if a, found := pl.Actions[k]; found {
+			return string(a) + "|" + pl.Classes[k]
+		}
+		return "untouched"
+	}
+	// ---- metadata view
+	got, strays, err := readMeta(path)
+	if err != nil {
+		c.Violatef(phase+"|dst_unreadable", "reading the destination metadata failed: %v\n%s", err, witness())
+		return false
+	}
+	if len(strays) > 0 {
+		c.Violatef(phase+"|artifacts_left", "destination contains entries that are not database content: %v\n%s", strays, witness())
+		ok = false
+	}
+	for ifc, days := range want {
+		for day, blocks := range days {
+			act := actionOf(ifc, day)
+			g, found := got[ifc][day]
+			if !found {
+				c.Violatef(phase+"|day_missing|"+act, "expected day %s/%d (%d blocks) is not in the destination\n%s", ifc, day, len(blocks), witness())
+				ok = false
+				continue
+			}
+			w := wantMeta(blocks)
+			if fmt.Sprint(g.TS) != fmt.Sprint(w.TS) {
+				c.Violatef(phase+"|block_timestamps|"+act, "day %s/%d: block timestamps %v, expected %v\n%s", ifc, day, rel(g.TS, day), rel(w.TS, day), witness())
+				ok = false
+				continue
+			}
+			if fmt.Sprint(g.Traffic) != fmt.Sprint(w.Traffic) {
+				c.Violatef(phase+"|block_traffic_metadata|"+act, "day %s/%d: per-block {v4,v6,drops} %v, expected %v\n%s", ifc, day, g.Traffic, w.Traffic, witness())
+				ok = false
+			}
+			if g.Totals != w.Totals {
+				c.Violatef(phase+"|day_totals|"+act, "day %s/%d: day totals %+v, expected %+v\n%s", ifc, day, g.Totals, w.Totals, witness())
+				ok = false
+			}
+			if act == "untouched" {
+				c.Count("days_untouched_checked", 1)
+			}
+		}
+	}
+	for ifc, days := range got {
+		for day, g := range days {
+			if _, found := want[ifc][day]; !found {
+				c.Violatef(phase+"|day_unexpected", "destination holds day %s/%d (%s, %d blocks) that the plan does not produce\n%s", ifc, day, g.Dir, len(g.TS), witness())
+				ok = false
+			}
+		}
+	}
+	if !ok {
+		return false
+	}
+	// ---- query view
+	db := want.RefDB()
+	if len(db.Ifaces) == 0 {
+		return true
+	}
+	tss := db.AllTimestamps()
+	spec := ref.QuerySpec{Attrs: []string{"sip", "dip", "dport", "proto"}, Time: true, Ifaces: db.IfaceNames(), First: tss[0] - 1, Last: tss[len(tss)-1] + 1}
+	wantRows := ref.Query(db, spec)
+	a := eng.Args("time,iface,sip,dip,dport,proto", "any", "", spec.First, spec.Last)
+	c.Note("%s: query of the merged destination; %s", phase, witness())
+	res, qerr, pmsg := eng.Run(path, a)
+	if pmsg != "" {
+		c.Violatef(phase+"|query_panic", "query on the merged destination panicked: %s\n%s", pmsg, witness())
+		return false
+	}
+	if qerr != nil {
+		if len(wantRows) == 0 && strings.Contains(qerr.Error(), "no data") {
+			return true
+		}
+		c.Violatef(phase+"|query_error", "query on the merged destination failed: %v\n%s", qerr, witness())
+		return false
+	}
+	gotRows, dup := ref.FromResult(res.Rows, spec)
+	if dup != "" {
+		c.Violatef(phase+"|row_split", "two result rows share the key %s\n%s", dup, witness())
+		ok = false
+	}
+	if d := ref.Diff(wantRows, gotRows); d != "" {
+		// attribute to the action of the first differing day
+		act := "untouched"
+		var keys []ref.RowKey
+		for k, w := range wantRows {
+			if g, found := gotRows[k]; !found || g != w {
+				keys = append(keys, k)
+			}
+		}
+		for k := range gotRows {
+			if _, found := wantRows[k]; !found {
+				keys = append(keys, k)
+			}
+		}
+		sort.Slice(keys, func(i, j int) bool { return keys[i].String() < keys[j].String() })
+		if len(keys) > 0 {
+			act = actionOf(keys[0].Iface, dayOf(keys[0].TS))
+		}
+		c.Violatef(phase+"|flows|"+ref.DiffClass(wantRows, gotRows)+"|"+act, "flows stored in the destination differ from the plan: %s\n%s", d, witness())
+		return false
+	}
+	c.Count("rows_compared", len(wantRows))
+	return ok
+}
+
+func rel(tss []int64, day int64) []int64 {
+	out := make([]int64, len(tss))
+	for i, t := range tss {
+		out[i] = t - day
+	}
+	return out
+}
+
+func checkCounts(c *fw.Case, phase string, got, want Counts, dry bool, witness func() string) {
+	if dry {
+		got.ConflictsDst, got.ConflictsSrc = 0, 0
+		want.ConflictsDst, want.ConflictsSrc = 0, 0
+	}
+	if got == want {
+		return
+	}
+	var fields []string
+	if got.Interfaces != want.Interfaces {
+		fields = append(fields, "interfaces")
+	}
+	if got.Copied != want.Copied {
+		fields = append(fields, "copied")
+	}
+	if got.Rebuilt != want.Rebuilt {
+		fields = append(fields, "rebuilt")
+	}
+	if got.Skipped != want.Skipped {
+		fields = append(fields, "skipped")
+	}
+	if got.ConflictsDst != want.ConflictsDst {
+		fields = append(fields, "conflicts_dst")
+	}
+	if got.ConflictsSrc != want.ConflictsSrc {
+		fields = append(fields, "conflicts_src")
+	}
+	c.Violatef(phase+"|counts|"+strings.Join(fields, "+"), "reported {interfaces copied rebuilt skipped conflicts_by_dst conflicts_by_src} = %+v, actions of the plan = %+v\n%s", got, want, witness())
+}
+
+// ---------------------------------------------------------------------------------------------
+
+func run(c *fw.Case) {
+	r := c.Rng
+	p := GenPair(r, c.Tier)
+	src := filepath.Join(c.Tmp, "src")
+	dst := filepath.Join(c.Tmp, "dst")
+	encs := []encoders.Type{encoders.EncoderTypeLZ4, encoders.EncoderTypeLZ4, encoders.EncoderTypeZSTD, encoders.EncoderTypeNull}
+	if err := p.Src.RefDB().Write(src, encs[r.Intn(len(encs))], 0); err != nil {
+		c.Violatef("setup_write_error", "writing the generated source failed: %v", err)
+		return
+	}
+	if !p.DstAbsent {
+		if err := os.MkdirAll(dst, 0o755); err != nil {
+			c.Inconclusive("mkdir: %v", err)
+			return
+		}
+		if err := p.Dst.RefDB().Write(dst, encs[r.Intn(len(encs))], 0); err != nil {
+			c.Violatef("setup_write_error", "writing the generated destination failed: %v", err)
+			return
+		}
+	}
+	tol := p.EffectiveTolerance()
+	pl := MakePlan(p.Src, p.Dst, p.Interfaces, p.Overwrite, tol)
+	describe := func() string {
+		s := p.Describe() + "\n  plan:"
+		var ks []string
+		for k := range pl.Actions {
+			ks = append(ks, k)
+		}
+		sort.Strings(ks)
+		for _, k := range ks {
+			s += fmt.Sprintf(" %s=%s(%s)", k, pl.Actions[k], pl.Classes[k])
+		}
+		return s
+	}
+	c.Sample(map[string]any{"scenario": describe(), "expected_counts": pl.Counts})
+	if c.Verbose {
+		c.Logf("%s", describe())
+	}
+	eng.QuietLogs(nil)
+
+	srcHash0, err := treeHash(src)
+	if err != nil {
+		c.Inconclusive("hash: %v", err)
+		return
+	}
+	srcUnchanged := func(phase string, w func() string) bool {
+		h, err := treeHash(src)
+		if err != nil || h != srcHash0 {
+			c.Violatef(phase+"|source_modified", "the source tree changed during the merge (%v): %s\n%s", err, listTree(src), w())
+			return false
+		}
+		return true
+	}
+
+	// coverage of the scenario
+	for k, s := range p.Shapes {
+		if strings.HasPrefix(s, "boundary") {
+			c.Count("days_boundary_shape", 1)
+		}
+		if strings.HasPrefix(s, "full288") {
+			c.Count("days_full288", 1)
+		}
+		_ = k
+	}
+	if p.Unknown {
+		c.Count("unknown_iface_cases", 1)
+	}
+	c.Count("big_blocks", p.BigBlocks)
+	if len(p.Interfaces) > 0 && len(pl.Sel) < len(p.Src) {
+		c.Count("iface_subset_cases", 1)
+	}
+
+	// ---- optional dry run
+	if p.DryFirst {
+		dstHash0, err := treeHash(dst)
+		if err != nil {
+			c.Inconclusive("hash: %v", err)
+			return
+		}
+		c.Note("dry run: %s", describe())
+		o := runMerge(c, p, src, dst, true)
+		w := func() string { return describe() + "\n  dry run result: " + o.raw }
+		c.Count("dry_runs", 1)
+		if p.DstAbsent {
+			c.Count("dry_runs_dst_absent", 1)
+		}
+		srcUnchanged("dry_run", w)
+		h, herr := treeHash(dst)
+		if herr != nil || h != dstHash0 {
+			cls := "dst_present"
+			if p.DstAbsent {
+				cls = "dst_absent"
+			}
+			c.Violatef("dry_run|destination_changed|"+cls, "a dry run changed the destination (before: %s, after: %s; %v); destination now: %s\n%s", short(dstHash0), short(h), herr, listTree(dst), w())
+		}
+		if o.err != nil {
+			if len(pl.Unknown) == 0 {
+				c.Violatef("dry_run|merge_error", "dry run failed: %v\n%s", o.err, w())
+				return
+			}
+		} else {
+			checkCounts(c, "dry_run", o.counts, pl.Counts, true, w)
+		}
+		if p.DstAbsent {
+			// bring the destination back to the generated state for the real merge
+			os.RemoveAll(dst)
+		}
+	}
+
+	// ---- the merge
+	dstHashBefore, _ := treeHash(dst)
+	c.Note("merge: %s", describe())
+	o := runMerge(c, p, src, dst, false)
+	w := func() string { return describe() + "\n  merge result: " + o.raw }
+	c.Count("merges", 1)
+	if p.ViaCLI {
+		c.Count("cli_merges", 1)
+	}
+	srcUnchanged("merge", w)
+	if o.err != nil {
+		if len(pl.Unknown) > 0 {
+			// a request for an interface the source does not hold may be refused, but then nothing may change
+			h, _ := treeHash(dst)
+			if h != dstHashBefore && !(dstHashBefore == "absent" && isEmptyDir(dst)) {
+				c.Violatef("merge|refused_but_destination_changed", "merge refused (%v) but the destination changed: %s\n%s", o.err, listTree(dst), w())
+			}
+			c.Count("unknown_iface_refused", 1)
+			return
+		}
+		c.Violatef("merge|merge_error", "merge failed: %v\n%s", o.err, w())
+		return
+	}
+	checkCounts(c, "merge", o.counts, pl.Counts, false, w)
+	if !checkContent(c, "merge", dst, pl.After, pl, w) {
+		return
+	}
+	c.Count("days_copied", pl.Counts.Copied)
+	c.Count("days_rebuilt", pl.Counts.Rebuilt)
+	c.Count("days_skipped", pl.Counts.Skipped)
+	c.Count("conflicts_dst_wins", pl.Counts.ConflictsDst)
+	c.Count("conflicts_src_wins", pl.Counts.ConflictsSrc)
+	for k, a := range pl.Actions {
+		cls := pl.Classes[k]
+		c.Count("plan_"+string(a)+"_"+strings.ReplaceAll(cls, ",", "_"), 1)
+		if a == ActCopy && !strings.Contains(cls, "dst_missing") {
+			c.Count("days_copy_over_existing", 1)
+		}
+		if !strings.Contains(cls, "dst_missing") {
+			c.Nontrivial(describe() + k)
+		}
+	}
+
+	// ---- the same merge again changes nothing further
+	pl2 := MakePlan(p.Src, pl.After, p.Interfaces, p.Overwrite, tol)
+	if !SideEqual(pl2.After, pl.After) {
+		c.Inconclusive("harness: the oracle's plan is not idempotent for %s", describe())
+		return
+	}
+	c.Note("second merge: %s", describe())
+	o2 := runMerge(c, p, src, dst, false)
+	w2 := func() string {
+		return describe() + "\n  first merge result: " + o.raw + "\n  second merge result: " + o2.raw
+	}
+	c.Count("second_merges", 1)
+	srcUnchanged("second_merge", w2)
+	if o2.err != nil {
+		c.Violatef("second_merge|merge_error", "merging the same source again failed: %v\n%s", o2.err, w2())
+		return
+	}
+	checkCounts(c, "second_merge", o2.counts, pl2.Counts, false, w2)
+	checkContent(c, "second_merge", dst, pl.After, pl2, w2)
+}
+
+func isEmptyDir(p string) bool {
+	ents, err := os.ReadDir(p)
+	return err == nil && len(ents) == 0
+}
+
+func short(h string) string {
+	if len(h) > 12 {
+		return h[:12]
+	}
+	return h
+}
